@@ -112,6 +112,22 @@ impl Interp {
         self.log.join("\n")
     }
 
+    /// declares, through the modelled calls, the sub-lists of the vocabulary that `code` selects
+    /// (capabilities, extension names, extended instruction sets; the import ids join the id pool)
+    pub fn preload_vocabulary(&mut self, code: usize) -> R {
+        // straight on the Builder (these calls are swept on their own elsewhere); the model is then
+        // re-synchronised from the module under construction, so that the calls that follow are
+        // compared against a module that already holds the vocabulary
+        let ids = no_panic("Builder preload (capability / extension / ext_inst_import)", || preload_vocabulary(self.b.as_mut().unwrap(), code)).map_err(|f| self.wrap(f))?;
+        self.model = self.b.as_ref().unwrap().module_ref().clone();
+        if let Some(m) = ids.iter().max() {
+            self.lo = self.lo.max(m + 1);
+        }
+        self.log.push(format!("preload of vocabulary code {} ({} imports: ids {:?})", code, ids.len(), ids));
+        self.env.ids.extend(ids);
+        Ok(())
+    }
+
     fn wrap(&self, f: Fail) -> Fail {
         f.with_decoded(self.render())
     }
@@ -846,6 +862,39 @@ fn sub_c12_histories(input: &[u8], st: &mut Stats) -> R {
     Ok(())
 }
 
+/// `vocabulary-histories`: the C12 mix on a Builder whose module already declares a coded half of
+/// every capability, extension name and extended instruction set (the import ids are in the id pool,
+/// so calls refer to them): what a call may do is decided by the selection, never by what the module
+/// declares or what an argument names
+fn sub_c12_vocabulary(input: &[u8], st: &mut Stats) -> R {
+    let mut cs = Cs::new(input);
+    let p = pools();
+    let mut it = Interp::new();
+    let code = cs.below(vocabulary_codes());
+    it.preload_vocabulary(code)?;
+    it.env.small = true;
+    let n = cs.below(41);
+    for _ in 0..n {
+        // the methods that take an extended instruction set are called far more often than in the
+        // general mix
+        if cs.below(4) == 0 {
+            let mm = method(["ext_inst", "ext_inst", "insert_ext_inst", "ext_inst_with_forward_refs_khr", "ext_inst_import"][cs.below(5)]);
+            it.call(&mut cs, mm)?;
+        } else {
+            c12_step(&mut cs, &mut it, p)?;
+        }
+    }
+    for e in &it.errors_seen {
+        st.count(&format!("error_{}", e));
+    }
+    st.count("vocabulary_histories");
+    if !it.errors_seen.is_empty() {
+        st.nontrivial(hash_str(&it.render()));
+    }
+    st.add("builder_calls", it.ncalls as u64);
+    Ok(())
+}
+
 /// histories of the C12 mix in which functions are also named (OpName) and selected by name
 fn sub_c12_named(input: &[u8], st: &mut Stats) -> R {
     let mut cs = Cs::new(input);
@@ -1009,12 +1058,7 @@ fn sub_c12_fixed(input: &[u8], st: &mut Stats) -> R {
 /// every call and against the expected module at the end. The rules of C12 carry no counts.
 fn sub_c12_huge(input: &[u8], st: &mut Stats) -> R {
     let mut cs = Cs::new(input);
-    let n = match cs.below(4) {
-        0 => 65_530 + cs.below(16),
-        1 => 131_066 + cs.below(12),
-        2 => 65_537 + cs.below(5_000),
-        _ => 66_000 + cs.below(69_000),
-    };
+    let n = cs.big_count();
     let pat = cs.below(6);
     let what = ["function_parameter", "begin_block+ret", "begin_function+end_function", "nop in one block", "rejected ret / begin_block / function_parameter / end_function", "begin_block+ret in a second function"][pat];
     let f = |clause: &str, k: usize, msg: String| Fail::new(clause, format!("huge:{}", what), format!("{} (pattern `{}` repeated, call #{} of {})", msg, what, k, n));
@@ -1115,6 +1159,7 @@ pub const C12_SUBS: &[Sub] = &[
     Sub { name: "long-runs", f: sub_c12_long },
     Sub { name: "named-histories", f: sub_c12_named },
     Sub { name: "huge-runs", f: sub_c12_huge },
+    Sub { name: "vocabulary-histories", f: sub_c12_vocabulary },
 ];
 
 pub fn c12_run(ctx: &Ctx) {
@@ -1124,6 +1169,7 @@ pub fn c12_run(ctx: &Ctx) {
     drive_random(ctx, &C12_SUBS[2], ctx.n(250, 100_000), 24_000);
     drive_random(ctx, &C12_SUBS[3], ctx.n(15_000, 7_000_000), 1500);
     drive_random_costly(ctx, &C12_SUBS[4], ctx.n(24, 6_000), 64);
+    drive_random(ctx, &C12_SUBS[5], ctx.n(10_000, 3_000_000), 1200);
     if !ctx.quick() && !ctx.failed() {
         crate::fuzzing::drive_fuzz(ctx, "builder", 200_000);
     }
@@ -1405,6 +1451,17 @@ fn sub_c13_referenced(input: &[u8], st: &mut Stats) -> R {
     let decos: Vec<u32> = g.enums.get("Decoration").map(|e| e.value_set.iter().copied().collect()).unwrap_or_default();
     let refs = c13_ref_methods();
     let per_type = decos.len() * 5 + 5;
+    let base_total = p.types.len() * per_type;
+    // beyond the plain sweep: `decorate` only, on a Builder that already declares a coded half of
+    // every capability / extension / extended instruction set (one block of cases per code)
+    let (i, preload) = if i < base_total {
+        (i, None)
+    } else {
+        let j = i - base_total;
+        let per_code = p.types.len() * decos.len();
+        let (code, k) = (j / per_code, j % per_code);
+        ((k / decos.len()) * per_type + k % decos.len(), Some(code))
+    };
     let Some(mm) = p.types.get(i / per_type).copied() else { return Ok(()) };
     let r = i % per_type;
     let (rname, deco) = if r < decos.len() * 5 { (refs[r / decos.len()], Some(decos[r % decos.len()])) } else { (refs[5 + r - decos.len() * 5], None) };
@@ -1415,6 +1472,9 @@ fn sub_c13_referenced(input: &[u8], st: &mut Stats) -> R {
     }
     let stream = crate::sweep::stream_for(i as u64 ^ 0xc13, 256);
     let mut it = Interp::new();
+    if let Some(code) = preload {
+        it.preload_vocabulary(code)?;
+    }
     for _ in 0..4 {
         it.alloc_id()?;
     }
@@ -1486,7 +1546,7 @@ fn sub_c13_referenced(input: &[u8], st: &mut Stats) -> R {
     }
     it.finish()?;
     st.set_insert("referenced_type_methods", mm.mi.name);
-    st.nontrivial(hash_str(&format!("{}#{}#{:?}", mm.mi.name, rname, deco)));
+    st.nontrivial(hash_str(&format!("{}#{}#{:?}#{:?}", mm.mi.name, rname, deco, preload)));
     Ok(())
 }
 
@@ -1506,7 +1566,7 @@ pub fn c13_run(ctx: &Ctx) {
     drive_random(ctx, &C13_SUBS[3], ctx.n(150, 60_000), 12_000);
     {
         let nd = golden().enums.get("Decoration").map(|e| e.value_set.len()).unwrap_or(0);
-        drive_enum(ctx, &C13_SUBS[4], (pools().types.len() * (nd * 5 + 5)) as u64);
+        drive_enum(ctx, &C13_SUBS[4], (pools().types.len() * (nd * 5 + 5) + vocabulary_codes() * pools().types.len() * nd) as u64);
     }
     if !ctx.quick() && !ctx.failed() {
         crate::fuzzing::drive_fuzz(ctx, "builder", 200000);
@@ -1876,7 +1936,7 @@ fn sub_c06_continued(input: &[u8], st: &mut Stats) -> R {
 /// a typed value, a label gets exactly that id)
 fn sub_c06_straddle(input: &[u8], st: &mut Stats) -> R {
     let mut cs = Cs::new(input);
-    let t = [1u32 << 16, 1 << 16, 1 << 17, 1 << 22, 1 << 24][cs.below(5)];
+    let t = [1u32 << 16, 1 << 16, 1 << 17, 1 << 22, 1 << 24, 1 << 18, 1 << 20, 10_000, 100_000, 1_000_000, 1_000_000, 10_000_000, 1_000_000_000][cs.below(13)];
     let start = t - cs.below(41) as u32;
     let mut it = Interp::from_bound(start)?;
     it.model.header = Some(dr::ModuleHeader::new(start));
@@ -1995,13 +2055,17 @@ fn sub_c16_builder(input: &[u8], st: &mut Stats) -> R {
     let total = ms.len() * 6;
     let hist = i / total;
     let i = i % total;
-    let (hist, pinned, aliased, empty_lists) = match hist {
-        0..=2 => (hist, None, false, false),
-        3 => (0, Some((1u8, 6u8)), false, false),
-        4 => (0, Some((1, 6)), true, true),
-        5 => (0, None, true, true),
-        6 => (2, Some((1, 0)), true, true),
-        _ => (0, Some((1, 6)), true, false),
+    // 8.. = the module under construction already declares a coded half of everything tools know by
+    // name - capabilities, extension names, extended instruction sets (`vocab::coded_subset`: over
+    // the codes every "A declared, B not" combination occurs)
+    let (hist, pinned, aliased, empty_lists, preload) = match hist {
+        0..=2 => (hist, None, false, false, None),
+        3 => (0, Some((1u8, 6u8)), false, false, None),
+        4 => (0, Some((1, 6)), true, true, None),
+        5 => (0, None, true, true, None),
+        6 => (2, Some((1, 0)), true, true, None),
+        7 => (0, Some((1, 6)), true, false, None),
+        k => (0, None, false, false, Some(k - 8)),
     };
     let variant = i % 6;
     let Some(mm) = ms.get(i / 6).copied() else { return Ok(()) };
@@ -2014,6 +2078,9 @@ fn sub_c16_builder(input: &[u8], st: &mut Stats) -> R {
     let mut b = Builder::new();
     if let Some((ma, mi)) = pinned {
         b.set_version(ma, mi);
+    }
+    if let Some(code) = preload {
+        preload_vocabulary(&mut b, code);
     }
     let ids: Vec<u32> = (0..6).map(|_| b.id()).collect();
     match hist {
@@ -2108,11 +2175,35 @@ fn sub_c16_builder(input: &[u8], st: &mut Stats) -> R {
             ),
         ));
     }
-    st.nontrivial(hash_str(&format!("{}#{}#{}#{:?}#{}#{}", mm.mi.name, variant, hist, pinned, aliased, empty_lists)));
+    st.nontrivial(hash_str(&format!("{}#{}#{}#{:?}#{}#{}#{:?}", mm.mi.name, variant, hist, pinned, aliased, empty_lists, preload)));
     if closed {
         st.set_insert("block_ending_methods", mm.mi.name);
     }
     Ok(())
+}
+
+/// number of preload codes that cover every ordered pair of each vocabulary list
+pub fn vocabulary_codes() -> usize {
+    let ncap = golden().enums.get("Capability").map(|c| c.values.len()).unwrap_or(2);
+    crate::vocab::codes_for(ncap).max(crate::vocab::codes_for(crate::vocab::extensions().len())).max(crate::vocab::codes_for(crate::vocab::EXT_SETS.len()))
+}
+
+/// declares on `b` the sub-lists of the vocabulary that `code` selects; returns the import ids
+pub fn preload_vocabulary(b: &mut Builder, code: usize) -> Vec<u32> {
+    if let Some(c) = golden().enums.get("Capability") {
+        let all: Vec<u32> = c.values.iter().map(|v| v.value).collect();
+        for v in crate::vocab::coded_subset(&all, code % crate::vocab::codes_for(all.len())) {
+            if let Some(cap) = spirv::Capability::from_u32(v) {
+                b.capability(cap);
+            }
+        }
+    }
+    let exts = crate::vocab::extensions();
+    for e in crate::vocab::coded_subset(exts, code % crate::vocab::codes_for(exts.len())) {
+        b.extension(e);
+    }
+    let sets: Vec<&str> = crate::vocab::EXT_SETS.to_vec();
+    crate::vocab::coded_subset(&sets, code % crate::vocab::codes_for(sets.len())).into_iter().map(|e| b.ext_inst_import(e)).collect()
 }
 
 pub const C16_SUBS: &[Sub] = &[Sub { name: "builder-ends-block", f: sub_c16_builder }];
@@ -2122,7 +2213,7 @@ pub fn c16_run(ctx: &Ctx) {
         .iter()
         .filter(|m| matches!(m.kind, MKind::BlockInst | MKind::BlockInsert | MKind::Terminator | MKind::TerminatorInsert))
         .count();
-    drive_enum(ctx, &C16_SUBS[0], n as u64 * 6 * 8);
+    drive_enum(ctx, &C16_SUBS[0], n as u64 * 6 * (8 + vocabulary_codes() as u64));
 }
 
 #[allow(dead_code)]
